@@ -528,6 +528,7 @@ class EZSP:
 
     async def write_config(self, config: dict) -> None:
         """Initialize EmberZNet Stack."""
+        user_config = config
         config = self._protocol.SCHEMAS[conf.CONF_EZSP_CONFIG](config)
 
         # Not all config will be present in every EZSP version so only use valid keys
@@ -550,9 +551,16 @@ class EZSP:
                 ezsp_config.pop(name, None)
                 continue
 
+            # A value filled in by the schema's own default is not a user override: it
+            # must keep the "only grow" behavior of the default entry it replaces
             ezsp_config[name] = RuntimeConfig(
                 config_id=t.EzspConfigId[name],
                 value=value,
+                minimum=(
+                    name not in user_config
+                    and name in ezsp_config
+                    and ezsp_config[name].minimum
+                ),
             )
 
         # Make sure CONFIG_PACKET_BUFFER_COUNT is always set last
